@@ -12,6 +12,7 @@ ROOT = os.path.dirname(os.path.dirname(os.path.abspath(__file__)))
 EVIDENCE_DIR = os.path.join(ROOT, "evidence")
 REPLAY_DIR = os.path.join(ROOT, "replays")
 FINDINGS_FILE = os.path.join(ROOT, "known_findings.json")
+MAX_REPORTED = 200  # distinct violations written out per run; beyond that they are only counted
 
 
 def seed() -> int:
@@ -66,6 +67,7 @@ class Run:
         self._state_set: set = set()
         self._nontrivial: set = set()
         self._printed_known: set = set()
+        self._viol_keys: Dict[str, int] = {}
 
     # --- coverage helpers -------------------------------------------------
     def state(self, key: str) -> None:
@@ -110,6 +112,13 @@ class Run:
                 return
             key = key + "|beyond-known:" + ",".join(extra[:8])
             what = f"fails on inputs not covered by the known finding ({extra[:8]}): " + what
+        if key in self._viol_keys:
+            self._viol_keys[key] += 1
+            return
+        self._viol_keys[key] = 1
+        if len(self._viol_keys) > MAX_REPORTED:
+            self.violations.append({"key": key, "what": what[:200], "replay": None})
+            return
         os.makedirs(REPLAY_DIR, exist_ok=True)
         h = hashlib.sha256(key.encode()).hexdigest()[:12]
         path = os.path.join(REPLAY_DIR, f"{self.prop}-{h}.json")
